@@ -6,19 +6,19 @@ CONSTANTS
   SlotOf <- MCSlotOf
   MaxCmds = 3
   MaxHops = 3
-  WithMigration = TRUE
+  WithMigration = FALSE
   EmptyTableAtStart = FALSE
-  AtomicAsk = FALSE
+  AtomicAsk = TRUE
   WithFailover = FALSE
   FixRefreshOnDialError = TRUE
-  StepwiseRefresh = FALSE
+  StepwiseRefresh = TRUE
   ClearBeforeFill = FALSE
-  MaxTicks = 0
+  MaxTicks = 1
   LazyConnect = FALSE
   AsyncRedirectDial = FALSE
   TrackOrder = FALSE
   WithDemotion = FALSE
   ReadonlyEverywhere = TRUE
-INVARIANTS EqualsReference EffectOnce SingleCopy CopyIsReference NoLostKey FirstHopIsOwner
+INVARIANTS NoRouteDuringRefresh
 CONSTRAINT HopBound
 CHECK_DEADLOCK FALSE
